@@ -218,9 +218,9 @@ def rt_inputs(rng):
         yield bytes(rng.choice(bytes(range(32, 95))) for _ in range(n))
 
 
-# mode sets without ASCII are left out: the planner/encoder coupling with ASCII disabled is outside the
-# reach of the contracts (DESIGN.md section 7, C18) and has known defects that would be mistaken for witnesses
-MODESETS = ['all', 'Ascii', 'Ascii,C40', 'Ascii,Text', 'Ascii,X12', 'Ascii,Edifact', 'Ascii,Base256', 'Ascii,C40,Text,X12', 'Ascii,Edifact,Base256']
+# (mode sets without ASCII are included since the planner's start-mode defect was repaired, /repo bd6bbfc)
+MODESETS = ['all', 'Ascii', 'Ascii,C40', 'Ascii,Text', 'Ascii,X12', 'Ascii,Edifact', 'Ascii,Base256', 'Ascii,C40,Text,X12', 'Ascii,Edifact,Base256',
+            'X12,Base256', 'Edifact,Base256', 'C40,Text,X12,Edifact,Base256']
 SYMSETS = ['default', 'all', 'Square10,Square12', 'Rect8x18,Rect8x32,Rect12x26', 'Square144', 'Rect26x40,Rect22x48', 'Square24,Rect8x64,Square22']
 
 
@@ -385,6 +385,8 @@ SEARCH = {
     'V-X12': [('rt', 45)],
     'V-B256': [('rt', 45)],
     'V-DRV': [('rt', 45)],
+    'V-OPT': [('rt', 45), ('perf', 40)],
+    'V-PLAN': [('rt', 45)],
 }
 _CACHE = {}
 
